@@ -25,9 +25,8 @@ structure Inv (s : State) : Prop where
   /-- a `Notified` future that was not completed yet was created on the entry that is still in the
   table, or whose owner is about to call `notify_waiters` -/
   waitReg : ∀ j o, (s.task j).pc.waitingOn = some o → (s.task j).woken = false →
-    (s.task o).key = (s.task j).key ∧ (s.table (s.task j).key = some o ∨ (s.task o).pc = .notify)
-  /-- a completed `Notified` future implies the key was published -/
-  wokenVerified : ∀ j o, (s.task j).pc.waitingOn = some o → (s.task j).woken = true → s.verified (s.task j).key = true
+    (s.task o).key = (s.task j).key ∧
+      (s.table (s.task j).key = some o ∨ (s.task o).pc = .notify ∨ (s.task o).pc = .notifyA)
   doneVerified : ∀ i, ((s.task i).pc = .remove ∨ (s.task i).pc = .notify) → s.verified (s.task i).key = true
   /-- the cached miss of a snapshot is still true while the snapshot's shared lock is held -/
   guardAUnverified : ∀ i, (s.task i).pc = .guardA → s.verified (s.task i).key = false
@@ -35,22 +34,24 @@ structure Inv (s : State) : Prop where
   publishExcl : ∀ i j, (s.task i).pc = .publish → (s.task j).key = (s.task i).key → (s.task j).pc.holdsShared = false
   /-- nested requests go to smaller keys (acyclic program) -/
   parentKey : ∀ j p, (s.task j).parent = some p → (s.task j).key < (s.task p).key
-  execOnce : ∀ k, s.execCount k ≤ 1 ∧ (s.execCount k = 1 → s.verified k = true ∨ (s.table k).isSome = true)
   /-- the publish log lists exactly the verified keys, once each -/
-  logSpec : s.log.Nodup ∧ ∀ k, k ∈ s.log ↔ s.verified k = true
+  logSpec : (s.log.map Prod.fst).Nodup ∧ ∀ k, k ∈ s.log.map Prod.fst ↔ s.verified k = true
   /-- an owner that has not published yet has an unverified key -/
   ownerUnverified : ∀ i, ((s.task i).pc = .wantX ∨ (s.task i).pc = .publish ∨ ∃ b, (s.task i).pc = .exec b) →
     s.verified (s.task i).key = false
   /-- a request only returns a published key -/
   doneReal : ∀ i, i < s.n → (s.task i).pc = .done → s.verified (s.task i).key = true
   parentReal : ∀ j p, (s.task j).parent = some p → j < s.n
-  /-- the executor has returned only after all its nested requests returned -/
+  /-- user requests are never cancelled -/
+  rootsAlive : ∀ i, (s.task i).parent = none →
+    (s.task i).pc ≠ .gone ∧ (s.task i).pc ≠ .removeA ∧ (s.task i).pc ≠ .notifyA
+  /-- the executor has returned only after all its nested requests ended -/
   ownerChildrenDone : ∀ i j, ((s.task i).pc = .wantX ∨ (s.task i).pc = .publish) → (s.task j).parent = some i →
-    (s.task j).pc = .done
-  parentPhase : ∀ i j, (s.task j).parent = some i →
-    (∃ b, (s.task i).pc = .exec b) ∨ (s.task i).pc = .wantX ∨ (s.task i).pc = .publish ∨ s.verified (s.task i).key = true
-  /-- every key is published after the keys its executor queried -/
-  depOrder : ∀ i j, (s.task j).parent = some i → (s.task i).key ∈ s.log → PublishedBefore (s.task j).key (s.task i).key s.log
+    (s.task j).pc.ended = true
+  publishedChildren : ∀ i j, ((s.task i).key, i) ∈ s.log → (s.task j).parent = some i → (s.task j).pc.ended = true
+  /-- the execution that published a key had been handed only keys published before -/
+  depOrder : ∀ i j, (s.task j).parent = some i → (s.task j).pc = .done → ((s.task i).key, i) ∈ s.log →
+    PublishedBefore (s.task j).key (s.task i).key (s.log.map Prod.fst)
 
 theorem noneWith_spec {s : State} {k : Nat} {p : Pc → Bool} (h : s.noneWith k p = true) :
     ∀ j, j < s.n → (s.task j).key = k → p (s.task j).pc = false := by
@@ -69,7 +70,7 @@ theorem noneWith_intro {s : State} {k : Nat} {p : Pc → Bool}
   · simp [hk]
 
 theorem childrenDone_spec {s : State} {i : Nat} (h : s.childrenDone i = true) :
-    ∀ j, j < s.n → (s.task j).parent = some i → (s.task j).pc = .done := by
+    ∀ j, j < s.n → (s.task j).parent = some i → (s.task j).pc.ended = true := by
   intro j hj hp
   simp only [State.childrenDone, List.all_eq_true, List.mem_range] at h
   have := h j hj
@@ -77,7 +78,7 @@ theorem childrenDone_spec {s : State} {i : Nat} (h : s.childrenDone i = true) :
   exact this
 
 theorem childrenDone_intro {s : State} {i : Nat}
-    (h : ∀ j, j < s.n → (s.task j).parent = some i → (s.task j).pc = .done) : s.childrenDone i = true := by
+    (h : ∀ j, j < s.n → (s.task j).parent = some i → (s.task j).pc.ended = true) : s.childrenDone i = true := by
   simp only [State.childrenDone, List.all_eq_true, List.mem_range]
   intro j hj
   by_cases hp : (s.task j).parent = some i
@@ -86,19 +87,19 @@ theorem childrenDone_intro {s : State} {i : Nat}
 
 theorem inv_init (roots : List Nat) (B : Nat) : Inv (init roots B) := by
   constructor <;> simp only [init] <;> intros <;> (try split at *) <;>
-    simp_all [Pc.isOwner, Pc.waitingOn, Pc.holdsShared]
+    simp_all [Pc.isOwner, Pc.waitingOn, Pc.holdsShared, Pc.ended]
   all_goals (first | omega | skip)
   all_goals (rename_i h; first | (have := List.getElem?_eq_none_iff.mpr h; simp_all) | skip)
 
 macro "ct_close" : tactic =>
-  `(tactic| (constructor <;> simp only [State.setTask] <;> grind [Pc.isOwner, Pc.waitingOn, Pc.holdsShared]))
+  `(tactic| (constructor <;> simp only [State.setTask] <;> grind [Pc.isOwner, Pc.waitingOn, Pc.holdsShared, Pc.ended, Pc.cancelsChildren]))
 
 theorem inv_loopHead {s s' : State} {i : Nat} (hi : Inv s) (h : step s (.loopHead i) = some s') : Inv s' := by
   simp only [step] at h
   split at h
   · rename_i hc
     obtain ⟨hlt, hpc⟩ := hc
-    obtain ⟨h1,h2,h3,h4,h5,h6,h7,h8,h9,h10,h11,h12,h13,h14,h15,h16,h17⟩ := hi
+    obtain ⟨h1,h2,h3,h4,h6,h7,h8,h9,h11,h12,h13,h14,h15,h16,h17,h18⟩ := hi
     split at h <;> cases h <;> ct_close
   · cases h
 
@@ -107,7 +108,7 @@ theorem inv_wake {s s' : State} {i : Nat} (hi : Inv s) (h : step s (.wake i) = s
   split at h
   · rename_i hc
     obtain ⟨hlt, hpc⟩ := hc
-    obtain ⟨h1,h2,h3,h4,h5,h6,h7,h8,h9,h10,h11,h12,h13,h14,h15,h16,h17⟩ := hi
+    obtain ⟨h1,h2,h3,h4,h6,h7,h8,h9,h11,h12,h13,h14,h15,h16,h17,h18⟩ := hi
     split at h <;> cases h <;> ct_close
   · cases h
 
@@ -117,7 +118,7 @@ theorem inv_snap {s s' : State} {i : Nat} (hi : Inv s) (h : step s (.snap i) = s
   · rename_i hc
     obtain ⟨hlt, hnw⟩ := hc
     have hnw' := noneWith_spec hnw
-    obtain ⟨h1,h2,h3,h4,h5,h6,h7,h8,h9,h10,h11,h12,h13,h14,h15,h16,h17⟩ := hi
+    obtain ⟨h1,h2,h3,h4,h6,h7,h8,h9,h11,h12,h13,h14,h15,h16,h17,h18⟩ := hi
     have hall : ∀ j, (s.task j).key = (s.task i).key → (s.task j).pc ≠ .publish := by
       intro j hk hp
       by_cases hj : j < s.n
@@ -131,7 +132,7 @@ theorem inv_fast {s s' : State} {i : Nat} (hi : Inv s) (h : step s (.fast i) = s
   split at h
   · rename_i hc
     obtain ⟨hlt, hpc⟩ := hc
-    obtain ⟨h1,h2,h3,h4,h5,h6,h7,h8,h9,h10,h11,h12,h13,h14,h15,h16,h17⟩ := hi
+    obtain ⟨h1,h2,h3,h4,h6,h7,h8,h9,h11,h12,h13,h14,h15,h16,h17,h18⟩ := hi
     split at h <;> cases h <;> ct_close
   · cases h
 
@@ -140,7 +141,7 @@ theorem inv_tfcRelease {s s' : State} {i : Nat} (hi : Inv s) (h : step s (.tfcRe
   split at h
   · rename_i hc
     obtain ⟨hlt, hpc⟩ := hc
-    obtain ⟨h1,h2,h3,h4,h5,h6,h7,h8,h9,h10,h11,h12,h13,h14,h15,h16,h17⟩ := hi
+    obtain ⟨h1,h2,h3,h4,h6,h7,h8,h9,h11,h12,h13,h14,h15,h16,h17,h18⟩ := hi
     cases h; ct_close
   · cases h
 
@@ -149,7 +150,7 @@ theorem inv_tryInsert {s s' : State} {i : Nat} (hi : Inv s) (h : step s (.tryIns
   split at h
   · rename_i hc
     obtain ⟨hlt, hpc⟩ := hc
-    obtain ⟨h1,h2,h3,h4,h5,h6,h7,h8,h9,h10,h11,h12,h13,h14,h15,h16,h17⟩ := hi
+    obtain ⟨h1,h2,h3,h4,h6,h7,h8,h9,h11,h12,h13,h14,h15,h16,h17,h18⟩ := hi
     split at h
     · cases h; ct_close
     · rename_i hnb
@@ -164,7 +165,7 @@ theorem inv_call {s s' : State} {i d : Nat} (hi : Inv s) (h : step s (.call i d)
   split at h
   · rename_i hc
     obtain ⟨hlt, hd⟩ := hc
-    obtain ⟨h1,h2,h3,h4,h5,h6,h7,h8,h9,h10,h11,h12,h13,h14,h15,h16,h17⟩ := hi
+    obtain ⟨h1,h2,h3,h4,h6,h7,h8,h9,h11,h12,h13,h14,h15,h16,h17,h18⟩ := hi
     have hn := h1 s.n (Nat.le_refl _)
     split at h
     · cases h; ct_close
@@ -177,7 +178,7 @@ theorem inv_execDone {s s' : State} {i : Nat} (hi : Inv s) (h : step s (.execDon
   · rename_i hc
     obtain ⟨hlt, hcd⟩ := hc
     have hcd' := childrenDone_spec hcd
-    obtain ⟨h1,h2,h3,h4,h5,h6,h7,h8,h9,h10,h11,h12,h13,h14,h15,h16,h17⟩ := hi
+    obtain ⟨h1,h2,h3,h4,h6,h7,h8,h9,h11,h12,h13,h14,h15,h16,h17,h18⟩ := hi
     split at h
     · cases h; ct_close
     · cases h
@@ -189,7 +190,7 @@ theorem inv_lockX {s s' : State} {i : Nat} (hi : Inv s) (h : step s (.lockX i) =
   · rename_i hc
     obtain ⟨hlt, hpc, hnw⟩ := hc
     have hnw' := noneWith_spec hnw
-    obtain ⟨h1,h2,h3,h4,h5,h6,h7,h8,h9,h10,h11,h12,h13,h14,h15,h16,h17⟩ := hi
+    obtain ⟨h1,h2,h3,h4,h6,h7,h8,h9,h11,h12,h13,h14,h15,h16,h17,h18⟩ := hi
     have hall : ∀ j, (s.task j).key = (s.task i).key → (s.task j).pc.holdsShared = false ∧ (s.task j).pc ≠ .publish := by
       intro j hk
       by_cases hj : j < s.n
@@ -206,54 +207,60 @@ theorem inv_publish {s s' : State} {i : Nat} (hi : Inv s) (h : step s (.publish 
   split at h
   · rename_i hc
     obtain ⟨hlt, hpc⟩ := hc
-    obtain ⟨h1,h2,h3,h4,h5,h6,h7,h8,h9,h10,h11,h12,h13,h14,h15,h16,h17⟩ := hi
+    obtain ⟨h1,h2,h3,h4,h6,h7,h8,h9,h11,h12,h13,h14,h15,h16,h17,h18⟩ := hi
     have hunv : s.verified (s.task i).key = false := h12 i (Or.inr (Or.inl hpc))
-    have hnl : (s.task i).key ∉ s.log := by
+    have hnl : (s.task i).key ∉ s.log.map Prod.fst := by
       intro hm; have := (h11.2 _).1 hm; rw [hunv] at this; cases this
+    have hkey : ∀ x, (if x = i then ({ s.task i with pc := .remove } : Task) else s.task x).key = (s.task x).key := by
+      intro x; split <;> simp_all
+    have hpar : ∀ x, (if x = i then ({ s.task i with pc := .remove } : Task) else s.task x).parent = (s.task x).parent := by
+      intro x; split <;> simp_all
     cases h
     constructor <;> simp only [State.setTask]
     case logSpec =>
+      simp only [List.map_cons]
       refine ⟨List.nodup_cons.2 ⟨hnl, h11.1⟩, ?_⟩
       intro k
       by_cases hk : k = (s.task i).key
       · simp [hk]
       · simp [hk, h11.2 k]
+    case publishedChildren =>
+      intro i' j hm hp
+      rw [hkey] at hm; rw [hpar] at hp
+      have hj : j ≠ i := by
+        intro hji; subst hji
+        have := h9 j i' hp
+        by_cases hii : i' = j
+        · subst hii; omega
+        · have h16' := h16
+          simp only [List.mem_cons, Prod.mk.injEq] at hm
+          rcases hm with ⟨_, rfl⟩ | hm
+          · exact hii rfl
+          · have hv : s.verified (s.task i').key = true := (h11.2 _).1 (List.mem_map.2 ⟨_, hm, rfl⟩)
+            have := h17 i' j hm hp
+            rw [hpc] at this; simp [Pc.ended] at this
+      simp only [hj, if_false]
+      simp only [List.mem_cons, Prod.mk.injEq] at hm
+      rcases hm with ⟨_, rfl⟩ | hm
+      · exact h16 i' j (Or.inr hpc) hp
+      · exact h17 i' j hm hp
     case depOrder =>
-      intro i' j hp hm
-      have hkey : ∀ x, (if x = i then ({ s.task i with pc := .remove } : Task) else s.task x).key = (s.task x).key := by
-        intro x; split <;> simp_all
-      have hpar : ∀ x, (if x = i then ({ s.task i with pc := .remove } : Task) else s.task x).parent = (s.task x).parent := by
-        intro x; split <;> simp_all
+      intro i' j hp hd hm
       rw [hpar] at hp
       rw [hkey] at hm ⊢
       rw [hkey]
-      by_cases hk : (s.task i').key = (s.task i).key
-      · -- then i' is the publisher itself
-        have hi' : i' = i := by
-          rcases h16 i' j hp with ⟨b, hb⟩ | hw | hpb | hv
-          · have t1 := h3 i' (by simp [hb, Pc.isOwner])
-            have t2 := h3 i (by simp [hpc, Pc.isOwner])
-            rw [hk, t2] at t1; cases t1; rfl
-          · have t1 := h3 i' (by simp [hw, Pc.isOwner])
-            have t2 := h3 i (by simp [hpc, Pc.isOwner])
-            rw [hk, t2] at t1; cases t1; rfl
-          · have t1 := h3 i' (by simp [hpb, Pc.isOwner])
-            have t2 := h3 i (by simp [hpc, Pc.isOwner])
-            rw [hk, t2] at t1; cases t1; rfl
-          · rw [hk, hunv] at hv; cases hv
-        subst hi'
-        have hdone := h15 i' j (Or.inr hpc) hp
-        have hjn := h14 j i' hp
-        have hvj := h13 j hjn hdone
-        rw [hk]
+      have hjd : (s.task j).pc = .done := by
+        by_cases hji : j = i
+        · subst hji; simp at hd
+        · simpa [hji] using hd
+      simp only [List.map_cons]
+      simp only [List.mem_cons, Prod.mk.injEq] at hm
+      rcases hm with ⟨hk, rfl⟩ | hm
+      · have hjn := h14 j i' hp
+        have hvj := h13 j hjn hjd
         exact PublishedBefore.head ((h11.2 _).2 hvj)
-      · have hm' : (s.task i').key ∈ s.log := by
-          simp only [List.mem_cons] at hm
-          rcases hm with hm | hm
-          · exact absurd hm hk
-          · exact hm
-        exact (h17 i' j hp hm').cons _
-    all_goals grind [Pc.isOwner, Pc.waitingOn, Pc.holdsShared]
+      · exact (h18 i' j hp hjd hm).cons _
+    all_goals grind [Pc.isOwner, Pc.waitingOn, Pc.holdsShared, Pc.ended, Pc.cancelsChildren]
   · cases h
 
 theorem inv_remove {s s' : State} {i : Nat} (hi : Inv s) (h : step s (.remove i) = some s') : Inv s' := by
@@ -261,7 +268,7 @@ theorem inv_remove {s s' : State} {i : Nat} (hi : Inv s) (h : step s (.remove i)
   split at h
   · rename_i hc
     obtain ⟨hlt, hpc⟩ := hc
-    obtain ⟨h1,h2,h3,h4,h5,h6,h7,h8,h9,h10,h11,h12,h13,h14,h15,h16,h17⟩ := hi
+    obtain ⟨h1,h2,h3,h4,h6,h7,h8,h9,h11,h12,h13,h14,h15,h16,h17,h18⟩ := hi
     cases h; ct_close
   · cases h
 
@@ -270,34 +277,9 @@ theorem inv_notify {s s' : State} {i : Nat} (hi : Inv s) (h : step s (.notify i)
   split at h
   · rename_i hc
     obtain ⟨hlt, hpc⟩ := hc
-    obtain ⟨h1,h2,h3,h4,h5,h6,h7,h8,h9,h10,h11,h12,h13,h14,h15,h16,h17⟩ := hi
+    obtain ⟨h1,h2,h3,h4,h6,h7,h8,h9,h11,h12,h13,h14,h15,h16,h17,h18⟩ := hi
     cases h
-    constructor <;> grind [Pc.isOwner, Pc.waitingOn, Pc.holdsShared]
+    constructor <;> grind [Pc.isOwner, Pc.waitingOn, Pc.holdsShared, Pc.ended, Pc.cancelsChildren]
   · cases h
-
-theorem inv_step {s s' : State} {ev : Ev} (hi : Inv s) (h : step s ev = some s') : Inv s' := by
-  cases ev with
-  | loopHead i => exact inv_loopHead hi h
-  | wake i => exact inv_wake hi h
-  | snap i => exact inv_snap hi h
-  | fast i => exact inv_fast hi h
-  | tfcRelease i => exact inv_tfcRelease hi h
-  | tryInsert i => exact inv_tryInsert hi h
-  | call i d => exact inv_call hi h
-  | execDone i => exact inv_execDone hi h
-  | lockX i => exact inv_lockX hi h
-  | publish i => exact inv_publish hi h
-  | remove i => exact inv_remove hi h
-  | notify i => exact inv_notify hi h
-
-theorem reachable_inv {roots : List Nat} {B : Nat} {s : State} (hr : Reachable roots B s) : Inv s := by
-  induction hr with
-  | init => exact inv_init roots B
-  | step ev _ h ih => exact inv_step ih h
-
-theorem run_inv {s s' : State} {evs : List Ev} (hr : Run s evs s') (hi : Inv s) : Inv s' := by
-  induction hr with
-  | nil => exact hi
-  | cons ev h _ ih => exact ih (inv_step hi h)
 
 end QbiceVerif.Lts.CT
